@@ -34,9 +34,21 @@ MUT_BUT_PURE = ("::iter_mut", "::as_mut", "::deref_mut", "::borrow_mut", "::get_
 
 
 class Classes:
-    def __init__(self, spec):
-        """spec: {class_name: [(owner_suffix, field or None)]}"""
+    def __init__(self, spec, by_type=None):
+        """spec: {class_name: [(owner_suffix, field or None)]}
+        by_type: {class_name: predicate on a type string} - state that is reached through a lock guard and has no
+        field of its own in the access path (the channel map: `MutexGuard<BTreeMap<ChannelId, Arc<Mutex<ChannelSlot>>>>`);
+        a `&mut T` local whose T satisfies the predicate points into that class"""
         self.spec = spec
+        self.by_type = by_type or {}
+
+    def classify_type(self, ty):
+        out = set()
+        if ty.startswith("&mut "):
+            for cname, pred in self.by_type.items():
+                if pred(ty[5:]):
+                    out.add(cname)
+        return out
 
     def classify_proj(self, proj):
         """classes touched by a projection path"""
@@ -61,7 +73,10 @@ class Classes:
 
 
 class Effects:
-    def __init__(self, ctx, classes, skip=R.is_test_util, pure_fns=()):
+    def __init__(self, ctx, classes, skip=R.is_test_util, pure_fns=(), store_calls=None):
+        """store_calls: optional predicate on callee names; a call to such a function (a persister write) is a mutation of
+        the class "store" and is part of the callers' summaries"""
+        self.store_calls = store_calls
         self.ctx = ctx
         self.prog = ctx.prog
         self.cl = classes
@@ -94,6 +109,20 @@ class Effects:
                         cs = mutref[s.rv.place.local]      # reborrow
                     if cs:
                         mutref[s.place.local] = set(cs)
+        # `&mut T` locals of a by-type class (result of DerefMut::deref_mut on the guard, of get_mut, ...)
+        if self.cl.by_type:
+            for bi in range(fv.n):
+                if body.cleanup[bi]:
+                    continue
+                t = body.term(bi)
+                if t.kind == "call" and t.call.dest.is_local():
+                    cs = self.cl.classify_type(body.ty(t.call.dest.local))
+                    if cs:
+                        mutref.setdefault(t.call.dest.local, set()).update(cs)
+            for l in range(1, body.argc + 1):
+                cs = self.cl.classify_type(body.ty(l))
+                if cs:
+                    mutref.setdefault(l, set()).update(cs)
         # propagate through plain moves/copies of the reference
         changed = True
         while changed:
@@ -125,6 +154,11 @@ class Effects:
                 if cs:
                     out.append((bi, "S", set(cs), f"write {s.place!r}", s.line))
             t = body.term(bi)
+            if t.kind == "call" and self.store_calls is not None:
+                n1 = t.call.callee.name if t.call.callee else ""
+                n2 = t.call.decl.name if t.call.decl else ""
+                if self.store_calls(n1) or self.store_calls(n2):
+                    out.append((bi, "T", {"store"}, "persist " + (n2 or n1).rsplit("::", 1)[-1], t.call.line))
             if t.kind == "call":
                 c = t.call
                 nm = c.callee.name if c.callee else ""
